@@ -36,6 +36,8 @@ instance : Monad M where
 
 def M.fail {α} (e : Err) : M α := fun w => (w, .error e)
 def M.get : M World := fun w => (w, .ok w)
+/-- fail while leaving the drive locked (an error return between `GetWriter` and `CloseWriter`) -/
+def M.wedge {α} (e : Err) : M α := fun w => ({ w with stuck := true }, .error e)
 /-- run a persister method that threads the index -/
 def M.idx {α} (f : Idx → Idx × Except Err α) : M α := fun w =>
   let (p, r) := f w.idx
@@ -96,23 +98,29 @@ def mknod (f : FsCfg) (env : Env) (isDir : Bool) (name : Name) (perm : Int) (ove
       attrs := { mode := permBits perm, uid := f.uid, gid := f.gid, uname := f.uname, gname := f.gname, mtime := env.now } }
   M.op (fun w => archive f.c w [src] overwrite initializing env.recs)
 
+/-- the `mkdirRoot` closure of `Initialize` -/
+def mkdirRoot (f : FsCfg) (env : Env) (rootProposal : Name) (rootPerm : Int) : M Name := do
+  if f.readOnly then M.fail .permission else
+  mknod f env true rootProposal rootPerm true [] true
+  M.idx (·.getRootPath)
+
+/-- the rebuild inside `Initialize`: `recovery.Index(0, 0, overwrite, not initializing, 0)` with
+    the real decrypt/verify callbacks -/
+def rebuildOp (f : FsCfg) (w : World) : World × Option Err :=
+  ({ w with idx := (index f.c w.idx w.tape ⟨0, 0⟩ true false 0 .tape).1 },
+   (index f.c w.idx w.tape ⟨0, 0⟩ true false 0 .tape).2)
+
 /-- `STFS.Initialize` (existing root → return it; else rebuild; on any failure `mkdirRoot`) -/
 def initFs (f : FsCfg) (env : Env) (rootProposal : Name) (rootPerm : Int) : M Name := do
   match ← M.attempt (M.idx (·.getRootPath)) with
   | .ok r => pure r
   | .error .noRoot =>
-    let mkdirRoot : M Name := do
-      if f.readOnly then M.fail .permission else
-      mknod f env true rootProposal rootPerm true [] true
-      M.idx (·.getRootPath)
     let w ← M.get
     if w.stuck then M.fail .stuck else
-    if w.tape == [] then mkdirRoot else     -- no readable tape
-    match ← M.attempt (M.op (fun w =>
-        let (idx, e) := index f.c w.idx w.tape ⟨0, 0⟩ true false 0 .tape
-        ({ w with idx := idx }, e))) with
+    if w.tape == [] then mkdirRoot f env rootProposal rootPerm else     -- no readable tape
+    match ← M.attempt (M.op (rebuildOp f)) with
     | .ok _ => M.idx (·.getRootPath)
-    | .error _ => mkdirRoot
+    | .error _ => mkdirRoot f env rootProposal rootPerm
   | .error e => M.fail e
 
 def mkdir (f : FsCfg) (env : Env) (name : Name) (perm : Int) : M Unit := do
